@@ -7,6 +7,7 @@ package scraperhelper
 // {0,1,3} x downstream {ok, error} x scraper result {ok, partial error, failure}.
 
 import (
+	"strings"
 	"context"
 	"encoding/json"
 	"errors"
@@ -46,11 +47,32 @@ type c19sCase struct {
 	Items   int    `json:"items"`
 	Down    string `json:"downstream"` // ok | error
 	Takes   bool   `json:"downstream_takes_the_data,omitempty"` // the next consumer declares MutatesData and moves the data away
-	Scraper string `json:"scraper"`    // ok | partial | fail
+	Scraper string `json:"scraper"`    // ok | partial | partial-wrapped | partial-joined | partial-wrapped-twice | fail
 	Tracing string `json:"tracing,omitempty"`
 }
 
+// the scraper's own counters (scraped / errored) of the last c19sRun
+var c19sScraperCtr [2]int64
+
 func c19sRun(c c19sCase) (string, string) {
+	sig, what := c19sRun1(c)
+	if sig != "" || !strings.HasPrefix(c.Scraper, "partial-") {
+		return sig, what
+	}
+	// however a partial scrape error is wrapped, the same thing happened: the scraper's own counters are those of the bare error
+	got := c19sScraperCtr
+	bare := c
+	bare.Scraper = "partial"
+	if s2, w2 := c19sRun1(bare); s2 != "" {
+		return s2, w2
+	}
+	if got != c19sScraperCtr {
+		return "scraper-own-counters-depend-on-error-wrapping:" + c.Signal, fmt.Sprintf("%+v: scraped/errored=%v, with the bare partial error %v", c, got, c19sScraperCtr)
+	}
+	return "", ""
+}
+
+func c19sRun1(c c19sCase) (string, string) {
 	tt := componenttest.NewTelemetry()
 	defer func() { _ = tt.Shutdown(context.Background()) }()
 	typ := component.MustNewType("vv")
@@ -63,6 +85,12 @@ func c19sRun(c c19sCase) (string, string) {
 	switch c.Scraper {
 	case "partial":
 		serr = scrapererror.NewPartialScrapeError(errors.New("partial"), 1)
+	case "partial-wrapped":
+		serr = fmt.Errorf("scraping x: %w", scrapererror.NewPartialScrapeError(errors.New("partial"), 1))
+	case "partial-wrapped-twice":
+		serr = fmt.Errorf("outer: %w", fmt.Errorf("scraping x: %w", scrapererror.NewPartialScrapeError(errors.New("partial"), 1)))
+	case "partial-joined":
+		serr = errors.Join(errors.New("another source failed"), scrapererror.NewPartialScrapeError(errors.New("partial"), 1))
 	case "fail":
 		serr = errors.New("scrape failed")
 	}
@@ -127,6 +155,8 @@ func c19sRun(c c19sCase) (string, string) {
 		"logs":    {c19sCtr(tt, "otelcol_receiver_accepted_log_records"), c19sCtr(tt, "otelcol_receiver_refused_log_records")},
 		"metrics": {c19sCtr(tt, "otelcol_receiver_accepted_metric_points"), c19sCtr(tt, "otelcol_receiver_refused_metric_points")},
 	}
+	c19sScraperCtr = [2]int64{c19sCtr(tt, "otelcol_scraper_scraped_"+map[string]string{"logs": "log_records", "metrics": "metric_points"}[c.Signal]),
+		c19sCtr(tt, "otelcol_scraper_errored_"+map[string]string{"logs": "log_records", "metrics": "metric_points"}[c.Signal])}
 	want := map[string][2]int64{"logs": {}, "metrics": {}}
 	if downErr == nil {
 		want[c.Signal] = [2]int64{int64(offered), 0}
@@ -168,7 +198,7 @@ func TestVerif(t *testing.T) {
 	for _, s := range []string{"logs", "metrics"} {
 		for _, n := range []int{0, 1, 3} {
 			for _, d := range []string{"ok", "error"} {
-				for _, sc := range []string{"ok", "partial", "fail"} {
+				for _, sc := range []string{"ok", "partial", "partial-wrapped", "partial-wrapped-twice", "partial-joined", "fail"} {
 				for _, takes := range []bool{false, true} {
 				for _, tr := range c19TracingModes[:2] { // the scrape context is the controller's own: no remote parent
 					c := c19sCase{Signal: s, Items: n, Down: d, Takes: takes, Scraper: sc, Tracing: tr}
